@@ -921,6 +921,18 @@ func (st *Store) sbits(a *Term) int {
 		}
 		st.intBits[a.ID] = b + 1
 		return b + 1
+	case OMul:
+		// product with a constant: the bit counts add (a bound, not exact)
+		for k := 0; k < 2; k++ {
+			if c := a.A[k]; c.Op == OConst {
+				b := st.sbits(a.A[1-k]) + st.sbits(c)
+				if b > a.S.W {
+					b = a.S.W
+				}
+				st.intBits[a.ID] = b
+				return b
+			}
+		}
 	case ONeg:
 		b := st.sbits(a.A[0])
 		if b+1 > a.S.W {
@@ -1050,11 +1062,53 @@ func (st *Store) mkIntFloat(iv *Term, b int) *Term {
 	return st.build(OFFromS, SFP, 0, 0, iv)
 }
 
+// neverNaN: a conservative syntactic test that a float term cannot be NaN (and is finite).
+func (st *Store) neverNaN(t *Term, depth int) bool {
+	if _, _, ok := st.fpInt(t); ok {
+		return true
+	}
+	if depth <= 0 {
+		return false
+	}
+	switch t.Op {
+	case OConst:
+		f := t.F()
+		return !math.IsNaN(f) && !math.IsInf(f, 0)
+	case OFNeg, OFAbs:
+		return st.neverNaN(t.A[0], depth-1)
+	case OFDiv:
+		// finite / finite non-zero constant of magnitude >= 1: finite
+		if c := t.A[1]; c.Op == OConst {
+			f := c.F()
+			return !math.IsNaN(f) && !math.IsInf(f, 0) && math.Abs(f) >= 1 && st.neverNaN(t.A[0], depth-1)
+		}
+	}
+	return false
+}
+
 func (st *Store) FBin(op Op, a, b *Term) *Term {
 	s := SFP
 	switch op {
 	case OFLt, OFLe, OFEq:
 		s = SBool
+	}
+	if a == b && (op == OFEq || op == OFLe) && st.neverNaN(a, 4) {
+		return st.True
+	}
+	if op == OFEq && a.Op == OFNeg && b.Op == OFNeg {
+		return st.FBin(OFEq, a.A[0], b.A[0])
+	}
+	if op == OFEq && a.Op == OFDiv && b.Op == OFDiv && a.A[1] == b.A[1] && a.A[1].Op == OConst {
+		// x/c == y/c for exact integers below 2^51 and a finite constant |c| >= 1: the quotients of
+		// distinct integers differ by 1/c, more than two units in the last place, so they round
+		// to different floats; equal integers give equal quotients
+		if c := a.A[1].F(); !math.IsNaN(c) && !math.IsInf(c, 0) && math.Abs(c) >= 1 && math.Abs(c) <= 1e18 {
+			if ia, ba, ok := st.fpInt(a.A[0]); ok && ba <= 51 {
+				if ib, bb, ok := st.fpInt(b.A[0]); ok && bb <= 51 {
+					return st.Eq(ia, ib)
+				}
+			}
+		}
 	}
 	if a.Op != OConst || b.Op != OConst {
 		// finite value times a zero constant: a zero of unknown sign
@@ -1179,6 +1233,9 @@ func (st *Store) FUn(op Op, a *Term) *Term {
 		return a.A[0]
 	}
 	if a.Op != OConst {
+		if (op == OFIsNaN || op == OFIsInf) && st.neverNaN(a, 4) {
+			return st.False
+		}
 		if ia, ba, ok := st.fpInt(a); ok {
 			switch op {
 			case OFIsNaN, OFIsInf:
